@@ -351,6 +351,9 @@ fn sub_like_empty_dictionary(c: &mut Case) -> CaseResult {
 }
 
 fn main() {
+    // the two reproduction sub-checks generate nothing in a normal run (they exist for the known-finding replays);
+    // C20_FINDING_SEARCH=1 makes them search, which is how the repro tapes were obtained
+    let fs: u64 = if std::env::var("C20_FINDING_SEARCH").is_ok() { 1 } else { 0 };
     let gq = grid_count(4) * GRID_VARIANTS;
     let gt = grid_count(5) * GRID_VARIANTS;
     let _ = (contains, ends_with, eq_ignore_ascii_case, starts_with, extract);
@@ -371,12 +374,12 @@ fn main() {
             .tape(512, 6000)
             .require(&["shape:eq", "shape:prefix", "shape:suffix", "shape:contains", "shape:regex", "trailing-backslash", "escaped-pct-end", "array-scalar", "array-array", "scalar-array", "scalar-scalar", "rep:dictionary", "rep:view", "haystack>12-bytes", "ilike-ascii-fast-path", "some-row-matches", "has-null"]),
     )
-    .sub(Sub::new("like_empty_dictionary", 0, 0, sub_like_empty_dictionary).tape(8, 64))
+    .sub(Sub::new("like_empty_dictionary", 64 * fs, 64 * fs, sub_like_empty_dictionary).tape(8, 64))
     .sub(Sub::new("predicates", 24000, 400000, more::sub_predicates).tape(512, 5000).require(&["binary", "string", "rep:view", "rep:dictionary", "needle>4-bytes", "needle>12-bytes", "some-row-matches"]))
     .sub(Sub::new("regexp", 20000, 300000, more::sub_regexp).tape(512, 5000).require(&["is_match", "is_match_scalar", "regexp_match", "with-flags", "invalid-regex", "some-row-matches"]))
     .sub(Sub::new("substring", 24000, 400000, more2::sub_substring).tape(512, 5000).require(&["bytes:utf8", "bytes:binary", "bytes:fixed", "bytes:dictionary", "by-char", "negative-start", "char-boundary-error", "ok"]))
-    .sub(Sub::new("substring_large_args", 0, 0, more2::sub_substring_extreme).tape(512, 5000))
-    .sub(Sub::new("length", 8000, 150000, more2::sub_length).tape(512, 6000).require(&["length", "bit_length"]))
+    .sub(Sub::new("substring_large_args", 2000 * fs, 2000 * fs, more2::sub_substring_extreme).tape(512, 5000))
+    .sub(Sub::new("length", 8000, 150000, more2::sub_length).tape(512, 6000).require(&["length", "bit_length", "value>255-bytes", "type:view", "type:dictionary", "type:runend", "type:listview", "type:map"]))
     .sub(Sub::new("concat", 12000, 200000, more2::sub_concat).tape(512, 5000).require(&["utf8", "binary", "many", "view", "fixed", "dyn"]))
     .run()
 }
